@@ -62,7 +62,7 @@ Definition mouse_phase (claims : Z -> Z) (route : list (Z * Z * Z)) (ty btn : Z)
 
 (* the drag bookkeeping the property describes *)
 Record dragst := mkDrag { ds_dragging : bool; ds_btn : Z; ds_line : Z; ds_col : Z; ds_src : option Z }.
-Definition drag_init := mkDrag false 0 0 0 None.
+Definition drag_init := mkDrag false 0 (-1) (-1) None.
 
 Definition tree_origin (t : wtree) (id : Z) : option (Z * Z) :=
   match t_path id t with
